@@ -919,7 +919,96 @@ func inAny(s []any, x any) bool {
 	return false
 }
 
+// mutableValues: the caller signs an extended attribute whose value is one of
+// its own mutable objects, changes that object afterwards, and verifies on the
+// SAME envelope object. Verify may fail (the object no longer matches what was
+// signed); if it succeeds, what it returns must be what the signed bytes say.
+func mutableValues(r *core.Run) {
+	ch := pki.SimpleChain("p256", 0, 2, "c01mut")
+	for _, mt := range []string{sims.JWS, sims.COSE} {
+		for vi := 0; vi < 4; vi++ {
+			for _, scheme := range []signature.SigningScheme{signature.SigningSchemeX509, signature.SigningSchemeX509SigningAuthority} {
+				for _, crit := range []bool{false, true} {
+					var val any
+					var scribble func()
+					switch vi {
+					case 0:
+						v := []any{"a", "b", "c"}
+						val, scribble = v, func() { v[0], v[2] = "scribbled", "x" }
+					case 1:
+						if mt == sims.JWS {
+							v := map[string]any{"k": "v", "n": "w"}
+							val, scribble = v, func() { v["k"] = "scribbled"; delete(v, "n"); v["new"] = "member" }
+						} else {
+							v := map[any]any{"k": "v", "n": "w"}
+							val, scribble = v, func() { v["k"] = "scribbled"; delete(v, "n"); v["new"] = "member" }
+						}
+					case 2:
+						if mt == sims.JWS {
+							continue // a byte string is not a JSON value
+						}
+						v := []byte{1, 2, 3, 4}
+						val, scribble = v, func() { v[0], v[3] = 0xff, 0xee }
+					default:
+						inner := []any{"deep"}
+						v := []any{inner, "flat"}
+						val, scribble = v, func() { inner[0] = "scribbled" }
+					}
+					desc := fmt.Sprintf("%s scheme=%s critical=%v: sign an extended attribute whose value is the caller's mutable object #%d, change the object, Verify on the same envelope object", mt, scheme, crit, vi)
+					signer, err := sims.NewLocal(ch)
+					if err != nil {
+						panic(err)
+					}
+					req := sims.BaseRequest(mt, signer, scheme)
+					req.ExtendedSignedAttributes = []signature.Attribute{{Key: "io.c01.mutable", Critical: crit, Value: val}}
+					env, _ := signature.NewEnvelope(mt)
+					var raw []byte
+					if p := core.Guard(func() { raw, err = env.Sign(req) }); p != nil || err != nil {
+						r.Count("mutable-value-sign-failed", 1)
+						continue
+					}
+					ref, perr := signature.ParseEnvelope(mt, raw)
+					if perr != nil {
+						continue
+					}
+					want, verr := ref.Verify()
+					if verr != nil {
+						continue
+					}
+					scribble()
+					r.Eval(1)
+					r.Nontrivial(desc)
+					var got *signature.EnvelopeContent
+					var gerr error
+					if p := core.Guard(func() { got, gerr = env.Verify() }); p != nil {
+						r.Count("mutable-value-verify-panicked", 1)
+						continue
+					}
+					if gerr != nil {
+						r.Count("mutable-value-verify-refused", 1)
+						continue
+					}
+					gv, wv := fmt.Sprintf("%#v", got.SignerInfo.SignedAttributes.ExtendedAttributes), fmt.Sprintf("%#v", want.SignerInfo.SignedAttributes.ExtendedAttributes)
+					if gv != wv {
+						r.Violation("verified-attribute-not-signed:"+mtOf(mt), desc+": Verify succeeded and returned "+gv+", the signed bytes say "+wv, desc)
+						continue
+					}
+					r.Count("mutable-value-verified-as-signed", 1)
+				}
+			}
+		}
+	}
+}
+
+func mtOf(mt string) string {
+	if mt == sims.JWS {
+		return "jws"
+	}
+	return "cose"
+}
+
 func run(r *core.Run) int {
+	mutableValues(r)
 	r.Rule = "corpus of valid envelopes (JWS/COSE x key kinds x chain length 1..4 x both schemes x plain/rich) plus a look-alike family (same key+certificate, other key, same subject with other key, same key re-issued); " +
 		"mutants: single-bit flips (quick: every bit of one envelope per format, every 7th bit of the others; thorough: every bit of every member), random double flips inside the signed regions / signature, insert/delete/replace at every region edge, signature fields of suggestive shapes (DER forms, the ECDSA twin, zeros), all 5^4 assignments of {protected, payload, signature, chain} from the family donors, chain edits and leaf substitutions, value-preserving and near-value-preserving re-encodings, base64url slack. " +
 		"non-trivial = the mutant differs from its parent inside a signed region, or is a splice / substitution; distinct by content hash"
